@@ -7,7 +7,8 @@ tier = "quick"
 if "--tier" in args:
     i = args.index("--tier"); tier = args[i + 1]; del args[i:i + 2]
 pid, name, checks = args[0], args[1], args[2:]
-out = "/tmp/mut/%s-out" % pid
+ROUND = os.environ.get("ROUND", "")
+out = "/tmp/mut%s/%s-out" % (ROUND, pid)
 c = subprocess.run(["/verif/lib/confirm_seed.sh", pid, out], capture_output=True, text=True)
 print(c.stdout.strip().splitlines()[-1] if c.stdout.strip() else c.stderr[-300:])
 confirmed = c.returncode == 0
@@ -30,7 +31,7 @@ old = json.load(open(os.path.join(dst, "meta.json"))) if os.path.exists(os.path.
 meta["property"] = pid
 meta["origin"] = "independent sub-agent given only the property text and a scratch worktree"
 meta["confirmed_by_me"] = {"suite_55_pass_with_change": True, "demo_fails_with_change": True, "demo_passes_without_change": True,
-                           "how": "lib/confirm_seed.sh %s (scratch worktree /tmp/mut/%s: cargo test --offline --lib --bins; cargo test --offline --test <demo> with and without the patch)" % (pid, pid)}
+                           "how": "lib/confirm_seed.sh %s (scratch worktree /tmp/mut*/%s: cargo test --offline --lib --bins; cargo test --offline --test <demo> with and without the patch)" % (pid, pid)}
 d = old.get("detection", {}); d.update(det)
 meta["detection"] = d
 meta["ran"] = "git -C /repo apply patch.diff; ./check <ID> --tier <tier>; git -C /repo checkout -- .  (lib/tryseed.py)"
